@@ -153,6 +153,40 @@ def memo_obligations(ctx, clause):
                     obs.append(Ob(clause, "R-MEMO", "R-MEMO|guard-field-assigned|Shaper.%s|%s" % (meth, field), f.loc(st), assigned,
                                   "%s assigns the guarded field %s" % (call.func.attr, field) if assigned else
                                   "%s never assigns %s: the stage is launched again on every call" % (call.func.attr, field)))
+    # (b') launches that are NOT under a guard of the public method: the launch function itself must start with an early
+    #      return when the stage has already run (`if self._x is not None: return`), if its stage accumulates
+    guarded_calls = set()
+    for meth in ("shex_graph", "profile_graph"):
+        f = p.func(SHAPER + meth)
+        for st in f.node.body:
+            if isinstance(st, ast.If):
+                for x in ast.walk(st):
+                    if isinstance(x, ast.Call) and isinstance(x.func, ast.Attribute) and x.func.attr.startswith("_launch_") and is_self_attr(x.func):
+                        guarded_calls.add(id(x))
+        for x in walk_own(f.node):
+            if not (isinstance(x, ast.Call) and isinstance(x.func, ast.Attribute) and x.func.attr.startswith("_launch_") and is_self_attr(x.func)):
+                continue
+            if id(x) in guarded_calls:
+                continue
+            launch = p.funcs.get(SHAPER + x.func.attr)
+            if launch is None:
+                continue
+            n += 1
+            body = [s_ for s_ in launch.node.body if not (isinstance(s_, ast.Expr) and isinstance(s_.value, ast.Constant))]
+            inner = None
+            if body and isinstance(body[0], ast.If) and not body[0].orelse and isinstance(body[0].body[-1], ast.Return):
+                t = body[0].test
+                if isinstance(t, ast.Compare) and len(t.ops) == 1 and isinstance(t.ops[0], (ast.IsNot, ast.NotEq)) \
+                        and isinstance(t.comparators[0], ast.Constant) and t.comparators[0].value is None and is_self_attr(t.left):
+                    inner = t
+            acc = accumulating_stage(ctx, launch)
+            ok = inner is not None or not acc
+            obs.append(Ob(clause, "R-MEMO", "R-MEMO|first-run-guard|Shaper.%s|%s" % (meth, x.func.attr), f.loc(x), ok,
+                          "%s is called unconditionally and %s" % (x.func.attr, "returns early once its stage has run (`%s`)" % norm(inner) if inner is not None
+                                                                   else "its stage does not accumulate") if ok else
+                          "%s is called on every %s() and has no first-run guard of its own, although %s accumulates into %s without "
+                          "resetting it: from the second call on the stage processes its earlier results again" % (
+                              x.func.attr, meth, acc[0], acc[1])))
     # (c) one memo, one computation: every call site of a launch passes the same (non-verbose) arguments; a launch that is
     #     parameterised differently from two public methods fills the shared memo with two different results
     by_launch = {}
